@@ -150,9 +150,11 @@ Fixpoint sm_spec_run (m : amap) (ops : list smop) : bool :=
   | ODump _ _ _ _ size :: r => N.eqb (len m) size && sm_spec_run m r
   end.
 
-Inductive case := CW (w : wcase) | CSM (ops : list smop).
+(* CW2: two wheels running side by side in one process; each one's calls and observations, checked in isolation --
+   the wheels are independent *)
+Inductive case := CW (w : wcase) | CSM (ops : list smop) | CW2 (a b : wcase).
 
 Definition model_ok (c : case) : bool :=
-  match c with CW w => wheel_model_ok w | CSM ops => sm_model_run sm_empty ops end.
+  match c with CW w => wheel_model_ok w | CSM ops => sm_model_run sm_empty ops | CW2 a b => wheel_model_ok a && wheel_model_ok b end.
 Definition spec_ok (c : case) : bool :=
-  match c with CW w => wheel_spec_ok w | CSM ops => sm_spec_run [] ops end.
+  match c with CW w => wheel_spec_ok w | CSM ops => sm_spec_run [] ops | CW2 a b => wheel_spec_ok a && wheel_spec_ok b end.
